@@ -150,6 +150,11 @@ impl<C: Cursor> Cursor for BoundsCursor<C> {
         if self.bounds == Bounds::BeforeStart {
             self.seek_to_first()?;
             self.next()?;
+        } else if self.bounds == Bounds::AfterEnd || self.cursor.key().is_none() {
+            // The underlying cursor overshot the end bound (possibly all the way to its own
+            // end).  Re-anchor it just past the end bound so that prev() yields the last entry
+            // inside the bounds.
+            self.seek_to_last()?;
         }
         Ok(())
     }
